@@ -24,6 +24,7 @@ import (
 	"github.com/onflow/crypto/zzverif/vsched"
 
 	"verif/harness/ev"
+	"verif/harness/ref/refbls"
 	"verif/harness/space"
 )
 
@@ -721,6 +722,7 @@ func main() {
 	if int(run.Get("programs")) != len(ps) {
 		run.Fatal("workers reported %d programs, expected %d", run.Get("programs"), len(ps))
 	}
+	argFamily(run)
 	auxFreeRun(run)
 	b2, m2 := boundFor(program{Threads: []int{0, 0}}, run.Thorough())
 	b3, m3 := boundFor(program{Threads: []int{0, 0, 0}}, run.Thorough())
@@ -831,4 +833,97 @@ func replay(run *ev.Run) {
 		fmt.Printf("T%d %s equal-to-solo=%v\n", ti, ops[o].Name, outs[ti] == solo[o])
 	}
 	os.Exit(0)
+}
+
+
+// argFamily: "signatures passed as arguments are left unmodified" and "each call returns what it returns
+// alone" for EVERY string of the structured candidate family around a valid signature (valid, 384 bit
+// flips, negation, +torsion, x >= p, flag settings, infinity variants, every length 0..200 - the family
+// C01/C05 offer to Verify), not only for valid signatures. Sequential (no scheduling involved): the
+// candidate sits between two guards in a frame, is handed to every verification / aggregation entry
+// point, and the frame is compared byte by byte afterwards; every call is made twice (same verdict), and
+// the full snapshot of the shared objects is compared at the end of each chunk.
+func argFamily(run *ev.Run) {
+	rc := newRecipe(run.Seed)
+	one := make([]byte, 32)
+	one[31] = 1
+	hs, err := must(crypto.DecodePrivateKey(crypto.BLSBLS12381, one)).Sign(rc.m1, crypto.NewExpandMsgXOFKMAC128("c19"))
+	if err != nil {
+		run.Fatal("argFamily: %v", err)
+	}
+	hPt, err1 := refbls.DecodeG1(hs)
+	sPt, err2 := refbls.DecodeG1(rc.s1)
+	if err1 != nil || err2 != nil {
+		run.Fatal("argFamily: decoding the base signature: %v %v", err1, err2)
+	}
+	cands := refbls.G1Candidates(sPt, hPt)
+	type entry struct {
+		name string
+		do   func(f *fixture, c []byte) string
+	}
+	entries := []entry{
+		{"BLS.Verify(pk1,c,m1,H)", func(f *fixture, c []byte) string { return vb(f.pk1.Verify(c, f.m1, f.H)) }},
+		{"BLSVerifyPOP(pk1,c)", func(f *fixture, c []byte) string { return vb(crypto.BLSVerifyPOP(f.pk1, c)) }},
+		{"SPOCKVerify(pk1,c,pk2,s2)", func(f *fixture, c []byte) string { return vb(crypto.SPOCKVerify(f.pk1, c, f.pk2, f.s2)) }},
+		{"SPOCKVerify(pk2,s2,pk1,c)", func(f *fixture, c []byte) string { return vb(crypto.SPOCKVerify(f.pk2, f.s2, f.pk1, c)) }},
+		{"VerifyOneMessage([pk1,pk2],c,m1,H)", func(f *fixture, c []byte) string {
+			return vb(crypto.VerifyBLSSignatureOneMessage([]crypto.PublicKey{f.pk1, f.pk2}, c, f.m1, f.H))
+		}},
+		{"VerifyManyMessages([pk1,pk2],c,[m1,m2],[H,H])", func(f *fixture, c []byte) string {
+			return vb(crypto.VerifyBLSSignatureManyMessages([]crypto.PublicKey{f.pk1, f.pk2}, c, [][]byte{f.m1, f.m2}, []hash.Hasher{f.H, f.H}))
+		}},
+		{"BatchVerify([pk1,pk2],[c,s2],m1,H)", func(f *fixture, c []byte) string {
+			r, err := crypto.BatchVerifyBLSSignaturesOneMessage([]crypto.PublicKey{f.pk1, f.pk2}, []crypto.Signature{c, f.s2}, f.m1, f.H)
+			return fmt.Sprintf("%v,%v", r, err)
+		}},
+		{"AggregateBLSSignatures([s2,c])", func(f *fixture, c []byte) string {
+			r, err := crypto.AggregateBLSSignatures([]crypto.Signature{f.s2, c})
+			return fmt.Sprintf("%x,%v", []byte(r), err)
+		}},
+	}
+	const chunks = 32
+	var mu sync.Mutex
+	calls := 0
+	ev.Par(chunks, func(ch int) {
+		f := rc.fresh()
+		before := f.snapshot()
+		guard := bytes.Repeat([]byte{0x5A}, 16)
+		n := 0
+		for ci := ch; ci < len(cands); ci += chunks {
+			c := cands[ci]
+			frame := append(append(append([]byte{}, guard...), c.Bytes...), guard...)
+			arg := frame[16 : 16+len(c.Bytes) : 16+len(c.Bytes)]
+			want := append([]byte{}, frame...)
+			for _, e := range entries {
+				r1 := e.do(f, arg)
+				same := bytes.Equal(frame, want)
+				r2 := e.do(f, arg)
+				n += 2
+				if !same || !bytes.Equal(frame, want) {
+					mu.Lock()
+					run.Violation("argument-modified:signature:"+opShortName(e.name), fmt.Sprintf("%s with c = %s: the caller's signature buffer (or its neighbourhood) was modified by the call", e.name, c.Name),
+						map[string]any{"entry": e.name, "candidate": c.Name, "before": ev.Hex(want), "after": ev.Hex(frame)})
+					mu.Unlock()
+					copy(frame, want)
+				}
+				if r1 != r2 {
+					mu.Lock()
+					run.Violation("result-differs-on-repetition:"+opShortName(e.name), fmt.Sprintf("%s with c = %s returns %s and then %s on the same inputs", e.name, c.Name, clip(r1), clip(r2)),
+						map[string]any{"entry": e.name, "candidate": c.Name, "signature": ev.Hex(c.Bytes)})
+					mu.Unlock()
+				}
+			}
+		}
+		if i, path := before.Changed(); i >= 0 {
+			mu.Lock()
+			run.Violation("argument-modified:shared-object", "a shared key / hasher / message object changed while invalid signatures were offered: "+f.names[i]+" "+path, map[string]any{"chunk": ch})
+			mu.Unlock()
+		}
+		mu.Lock()
+		calls += n
+		mu.Unlock()
+	})
+	run.Add("evaluations", int64(calls))
+	run.Set("argument_family_part", map[string]any{"candidates": len(cands), "entry_points": len(entries), "calls": calls,
+		"rule": "every candidate string (between two 16-byte guards) as the signature argument of 8 entry points, each called twice: frame unchanged, same result twice; shared objects snapshot-equal afterwards"})
 }
